@@ -13,14 +13,14 @@ From KV Require Import Fs.LocPath Fs.LocPathProofs Fs.Localize Fs.LocalizeProofs
 Open Scope list_scope.
 
 (* Every mkdir / write that any run attempts — whatever fails, wherever — targets a path inside
-   newDir; RemoveAll is only applied to newDir itself or to "" (the no-op of defect (a)). *)
+   newDir; RemoveAll is only applied to newDir itself. *)
 Theorem C18_writes_confined :
   forall orc ch fuel target scope newdir fault s w out,
     fs_wf s ->
     run_localize orc ch fuel target scope newdir fault s = (w, out) ->
     forall e, In e (w_trace w) ->
       (mutating (ev_op e) = true -> is_prefix (newdir_path target newdir) (ev_target e) = true) /\
-      (ev_op e = ORemoveAll -> ev_path e = "" \/ ev_target e = newdir_path target newdir).
+      (ev_op e = ORemoveAll -> ev_target e = newdir_path target newdir).
 Proof. exact writes_confined_in. Qed.
 Print Assumptions C18_writes_confined.
 
@@ -39,25 +39,27 @@ Print Assumptions C18_source_unchanged.
      all_or_nothing_law := forall … fault s w out, fs_wf s -> exists_path s newDir = false ->
        run_localize … fault s = (w, out) -> out is not Ok -> (no RemoveAll failed) ->
        exists_path (w_fs w) newDir = false.
-   PROVED part: when the run ends with an error RETURN after the destination tree was started
-   (MkdirAll(dst) succeeded: the fault, if any, is at or after the first effect of localize()) and
-   the cleanup call itself did not fail, newDir is gone.  Missing: faults before that point
-   (refuted_1, refuted_2) and the exits that are not error returns (refuted_3 log.Fatalf,
-   refuted_4 log.Panicf). *)
+   PROVED part (since the repair d268200 in /repo it covers EVERY error return): whenever localize
+   RETURNS an error — for every fault position, the early ones included — newDir, which did not
+   exist before, does not exist afterwards, provided no RemoveAll call failed (a failed cleanup is a
+   second failure: out of the single-fault domain, see design.d/C18.md).
+   Missing: the exits that are not error returns (refuted_3 log.Fatalf, refuted_4 / refuted_5
+   log.Panicf).  Shapes (a) "ConfirmDir fails after Mkdir" and (b) "MkdirAll(dst) fails" were
+   refuted_1 / refuted_2 until d268200; they are now instances of this theorem. *)
 Theorem C18_all_or_nothing_partial :
   forall orc ch fuel target scope newdir fault s w,
     fs_wf s ->
+    exists_path s (newdir_path target newdir) = false ->
     run_localize orc ch fuel target scope newdir fault s = (w, OExn XErr) ->
-    (exists e, In e (w_trace w) /\ ev_op e = OMkdirAll /\ ev_ok e = true) ->
     (forall e, In e (w_trace w) -> ev_op e = ORemoveAll -> ev_ok e = true) ->
     exists_path (w_fs w) (newdir_path target newdir) = false.
 Proof. exact all_or_nothing_partial. Qed.
 Print Assumptions C18_all_or_nothing_partial.
 
-(* The other proved part: a run none of whose events can have changed the state (no successful
-   mkdir/write, RemoveAll only of "") ends in the initial state — failures before Mkdir(newDir)
-   (bad target / scope, existing or illegal newDir, a fault on operations 0..2) leave nothing behind.
-   Together with C18_all_or_nothing_partial this covers every error return except shapes (a), (b). *)
+(* A stronger fact for the early failures: a run none of whose events can have changed the state (no
+   successful mkdir/write, no successful RemoveAll of a real path) ends in the initial state —
+   failures before Mkdir(newDir) (bad target / scope, existing or illegal newDir, a fault on
+   operations 0..2) leave everything exactly as it was, also a pre-existing newDir. *)
 Theorem C18_all_or_nothing_partial_early :
   forall orc ch fuel target scope newdir fault s w out,
     run_localize orc ch fuel target scope newdir fault s = (w, out) ->
@@ -69,16 +71,6 @@ Print Assumptions C18_all_or_nothing_partial_early.
 (* leftover_at i x: on the tree of corpus/C18/two-roots.json (target /s/t, scope /s, newDir /new),
    failing fallible operation number i ends with outcome x, satisfies every hypothesis of
    all_or_nothing_law, and leaves /new behind. *)
-
-(* (a) CleanedAbs("/new") of ConfirmDir fails right after Mkdir("/new"): cleanup removes "" *)
-Theorem C18_all_or_nothing_refuted_1 : exists i, leftover_at i XErr /\ i = 3.
-Proof. exact all_or_nothing_refuted_1. Qed.
-Print Assumptions C18_all_or_nothing_refuted_1.
-
-(* (b) MkdirAll("/new/t") fails: Run returns without cleanup *)
-Theorem C18_all_or_nothing_refuted_2 : exists i, leftover_at i XErr /\ i = 4.
-Proof. exact all_or_nothing_refuted_2. Qed.
-Print Assumptions C18_all_or_nothing_refuted_2.
 
 (* (c) CleanedAbs inside cleanedRelativePath fails: log.Fatalf, the process exits *)
 Theorem C18_all_or_nothing_refuted_3 : exists i, leftover_at i XFatal.
